@@ -510,12 +510,12 @@ func (P *Program) Builders() []*Builder {
 // BTReturn classifies what a path returns.
 type BTReturn struct {
 	Reject   bool
-	Codec    types.Type     // concrete codec type (pointer stripped), nil if delegated
-	CodecPtr bool           // returned as *T
-	Lit      ssa.Value      // the Alloc holding the literal, if any
-	Delegate *ssa.Call      // call to another (Codec, error) function whose result is returned
-	Dynamic  bool           // call of a function value (registered builder)
-	Other    string         // not understood
+	Codec    types.Type // concrete codec type (pointer stripped), nil if delegated
+	CodecPtr bool       // returned as *T
+	Lit      ssa.Value  // the Alloc holding the literal, if any
+	Delegate *ssa.Call  // call to another (Codec, error) function whose result is returned
+	Dynamic  bool       // call of a function value (registered builder)
+	Other    string     // not understood
 	Fields   map[string]ssa.Value
 }
 
